@@ -13,19 +13,38 @@
 (*     finally: for f in reversed: f.early_teardown()    ETeardown(i)        *)
 (*              for f in reversed: f.global_teardown()   GTeardown(i)        *)
 (*     reports                                                               *)
-(* Globals take abstract values: "init" (what the caller had), "runner"      *)
+(* Globals (all but the gc debug flags, see below) take abstract values:     *)
+(* "init" (what the caller had), "runner"                                    *)
 (* (installed by a feature), "test" (changed by a test), "none" (the         *)
 (* interpreter default, e.g. no trace function).                             *)
 (* Features, in configure() order: Coverage, Profiling, Threshold, Debug,    *)
 (* Traceback (always active).                                                *)
+(* The collector's debug flags are a SET OF BITS (value equality before /    *)
+(* after is the clause; "changed / unchanged" cannot tell a flag the caller  *)
+(* had on from one the run switched on): the caller's flags PreDebug, the    *)
+(* flags named with -G (GBits), and DEBUG_SAVEALL, which stopTest switches   *)
+(* on around its cycle analysis under --gc-after-test at verbosity >= 4.     *)
 EXTENDS Naturals, Sequences, FiniteSets, TLC
 
-CONSTANTS NTests, Deviations, PreChoices
+CONSTANTS NTests, Deviations, PreChoices,
+          OptUniverse,       \* the options this configuration enumerates
+          PreDebugChoices,   \* the caller's gc debug flags (sets of bits)
+          GChoices,          \* what -G may name (non-empty sets of bits)
+          V4Choices          \* with --gc-after-test: verbosity >= 4 or not
 
-AllOpts == {"gc", "G", "coverage", "profile", "buffer", "warnings", "D", "x"}
+AllOpts == {"gc", "G", "A", "coverage", "profile", "buffer", "warnings", "D", "x"}
+Bits == {"DEBUG_STATS", "DEBUG_UNCOLLECTABLE", "DEBUG_SAVEALL"}
+SaveAll == "DEBUG_SAVEALL"
+ASSUME /\ OptUniverse \subseteq AllOpts
+       /\ PreDebugChoices \subseteq SUBSET Bits
+       /\ GChoices \subseteq (SUBSET Bits) \ {{}}
+       /\ V4Choices \subseteq BOOLEAN
 
 VARIABLES Opts,        \* the option subset of this run (chosen in Init)
-          PreHooks     \* which trace / profile functions the caller had installed
+          PreHooks,    \* which trace / profile functions the caller had installed
+          PreDebug,    \* the gc debug flags the caller had on
+          GBits,       \* the flags named with -G ({} without -G)
+          v4           \* "A" (--gc-after-test) given together with -vvvv
 
 Globals == {"gcThreshold", "gcDebug", "tbFormat", "tbPrint", "sysTrace",
             "thrTrace", "settraceFn", "sysProfile", "warnFilters",
@@ -47,24 +66,38 @@ G0 == [x \in Globals |->
          CASE x = "sysTrace" -> IF PreHooks = "none" THEN "none" ELSE "callerS"
            [] x = "thrTrace" -> IF PreHooks = "both" THEN "callerT" ELSE "none"
            [] x = "sysProfile" -> IF PreHooks = "none" THEN "none" ELSE "callerP"
+           [] x = "gcDebug" -> PreDebug
            [] OTHER -> "init"]
 
 (* endings of the test phase *)
 (* "redirKbint": the last test replaces sys.stdout with an object of its own in *)
 (* setUp (to put it back in tearDown) and is interrupted before tearDown runs  *)
-Endings == {"normal", "failing", "hookUp", "hookDown", "kbint", "stop", "postmortem", "redirKbint"}
+(* "gcWinKbint": KeyboardInterrupt inside stopTest's cycle analysis of the last  *)
+(* test (only with --gc-after-test at verbosity >= 4; otherwise there is no     *)
+(* such place)                                                                 *)
+Endings == {"normal", "failing", "hookUp", "hookDown", "kbint", "stop", "postmortem", "redirKbint",
+            "gcWinKbint"}
 
-VARIABLES g, saved, pc, idx, t, ending, exc, began, warnSaved
-vars == <<g, saved, pc, idx, t, ending, exc, began, warnSaved, Opts, PreHooks>>
+VARIABLES g, saved, pc, idx, t, ending, exc, began, warnSaved,
+          gcSaved      \* stopTest's local gc_opts
+vars == <<g, saved, pc, idx, t, ending, exc, began, warnSaved, gcSaved,
+          Opts, PreHooks, PreDebug, GBits, v4>>
 
-Init == /\ Opts \in SUBSET AllOpts /\ PreHooks \in PreChoices
+(* -x changes nothing but how the loop is left, so it is enumerated together   *)
+(* with the ending it causes                                                   *)
+Init == /\ Opts \in SUBSET OptUniverse /\ PreHooks \in PreChoices
+        /\ PreDebug \in PreDebugChoices
+        /\ GBits \in (IF "G" \in Opts THEN GChoices ELSE {{}})
+        /\ v4 \in (IF "A" \in Opts THEN V4Choices ELSE {FALSE})
         /\ g = G0
-        /\ saved = [x \in Globals |-> "none"]
+        /\ saved = [x \in Globals |-> IF x = "gcDebug" THEN {} ELSE "none"]
         /\ pc = "enter" /\ idx = 0 /\ t = 0
         /\ ending \in Endings
-        /\ ("stop" = ending => "x" \in Opts) /\ ("postmortem" = ending => "D" \in Opts)
+        /\ ("stop" = ending <=> "x" \in Opts) /\ ("postmortem" = ending => "D" \in Opts)
+        /\ ("gcWinKbint" = ending => "A" \in Opts /\ v4)
         /\ exc = "none" /\ began = FALSE
         /\ warnSaved = <<"none", "none">>
+        /\ gcSaved = {}
 
 Set(gg, xs, v) == [x \in Globals |-> IF x \in xs THEN v ELSE gg[x]]
 
@@ -74,7 +107,7 @@ WarnEnter ==
   /\ warnSaved' = <<g["warnFilters"], g["showwarning"]>>
   /\ g' = IF "warnings" \in Opts THEN Set(g, {"warnFilters"}, "runner") ELSE g
   /\ pc' = "gsetup" /\ idx' = 1
-  /\ UNCHANGED <<saved, t, ending, exc, began>>
+  /\ UNCHANGED <<saved, t, ending, exc, began, gcSaved>>
 
 (* ---- feature hooks ------------------------------------------------------ *)
 GSetupEffect(f) ==
@@ -85,8 +118,13 @@ GSetupEffect(f) ==
          /\ saved' = [saved EXCEPT !["gcThreshold"] = g["gcThreshold"]]
          /\ g' = Set(g, {"gcThreshold"}, "runner")
     [] f = "Debug" ->
-         /\ saved' = [saved EXCEPT !["gcDebug"] = g["gcDebug"]]
-         /\ g' = Set(g, {"gcDebug"}, "runner")
+         \* gc.set_debug(<the -G flags>): the caller's flags are replaced, not
+         \* extended ("DebugOrAndMask": OR-ed in here, masked out at teardown)
+         IF "DebugOrAndMask" \in Deviations
+         THEN /\ g' = [g EXCEPT !["gcDebug"] = @ \cup GBits]
+              /\ UNCHANGED saved
+         ELSE /\ saved' = [saved EXCEPT !["gcDebug"] = g["gcDebug"]]
+              /\ g' = [g EXCEPT !["gcDebug"] = GBits]
     [] f = "Traceback" ->
          /\ saved' = [saved EXCEPT !["tbFormat"] = g["tbFormat"], !["tbPrint"] = g["tbPrint"]]
          /\ g' = Set(g, {"tbFormat", "tbPrint"}, "runner")
@@ -97,7 +135,7 @@ GSetup ==
   /\ IF idx <= NF
      THEN /\ GSetupEffect(Features[idx]) /\ idx' = idx + 1 /\ UNCHANGED pc
      ELSE /\ pc' = "lsetup" /\ idx' = 1 /\ UNCHANGED <<g, saved>>
-  /\ UNCHANGED <<t, ending, exc, began, warnSaved>>
+  /\ UNCHANGED <<t, ending, exc, began, warnSaved, gcSaved>>
 
 LSetup ==
   /\ pc = "lsetup"
@@ -106,7 +144,7 @@ LSetup ==
                   THEN Set(g, {"sysProfile"}, "runner") ELSE g  \* profiler.enable
           /\ idx' = idx + 1 /\ UNCHANGED <<pc, began, t>>
      ELSE /\ pc' = "tstart" /\ began' = TRUE /\ t' = 1 /\ UNCHANGED <<g, idx>>
-  /\ UNCHANGED <<saved, ending, exc, warnSaved>>
+  /\ UNCHANGED <<saved, ending, exc, warnSaved, gcSaved>>
 
 (* ---- the test phase ------------------------------------------------------*)
 Last == t = NTests
@@ -125,7 +163,7 @@ TStart ==     \* TestResult.startTest: per-test layer hooks, then arm the captur
      ELSE IF ending = "hookUp" /\ Last
           THEN /\ exc' = "hook" /\ pc' = "eteardown" /\ idx' = NF /\ UNCHANGED g
           ELSE /\ g' = Arm(g) /\ pc' = "tbody" /\ UNCHANGED <<exc, idx>>
-  /\ UNCHANGED <<saved, t, ending, began, warnSaved>>
+  /\ UNCHANGED <<saved, t, ending, began, warnSaved, gcSaved>>
 
 TBody ==      \* the test itself; it may change warnings filters for itself
   /\ pc = "tbody"
@@ -134,7 +172,13 @@ TBody ==      \* the test itself; it may change warnings filters for itself
        IN g' = IF ending = "redirKbint" /\ Last THEN Set(g1, {"stdout"}, "test") ELSE g1
   /\ exc' = IF ending \in {"kbint", "redirKbint"} /\ Last THEN "kbint" ELSE exc
   /\ pc' = "tstop"
-  /\ UNCHANGED <<saved, idx, t, ending, began, warnSaved>>
+  /\ UNCHANGED <<saved, idx, t, ending, began, warnSaved, gcSaved>>
+
+(* how the per-test loop goes on once stopTest is through *)
+Leave == IF exc # "none"
+            \/ (Last /\ ending \in {"stop", "postmortem"})    \* -x / EndRun: loop left normally
+         THEN pc' = "eteardown" /\ idx' = NF /\ UNCHANGED t
+         ELSE pc' = "tstart" /\ t' = t + 1 /\ UNCHANGED idx
 
 TStop ==      \* TestResult.stopTest (unittest calls it in a finally clause)
   /\ pc = "tstop"
@@ -149,11 +193,44 @@ TStop ==      \* TestResult.stopTest (unittest calls it in a finally clause)
         \* -D: debug.post_mortem enters pdb, whose 'continue' resets the trace
         \* function; post_mortem puts the caller's back (fix; deviation
         \* "PostMortemResetsTrace" = before it)
-        /\ IF hookRaises \/ exc # "none"
-              \/ (Last /\ ending \in {"stop", "postmortem"})    \* -x / EndRun: loop left normally
+        \* a raising testTearDown hook leaves stopTest at once; otherwise the
+        \* --gc-after-test part follows (also with KeyboardInterrupt in flight:
+        \* stopTest runs in unittest's finally clause)
+        /\ IF hookRaises
            THEN pc' = "eteardown" /\ idx' = NF /\ UNCHANGED t
-           ELSE pc' = "tstart" /\ t' = t + 1 /\ UNCHANGED idx
-  /\ UNCHANGED <<saved, ending, began, warnSaved>>
+           ELSE pc' = "tgc" /\ UNCHANGED <<idx, t>>
+  /\ UNCHANGED <<saved, ending, began, warnSaved, gcSaved>>
+
+(* stopTest, continued.  --gc-after-test at verbosity >= 4:                    *)
+(*     gc_opts = gc.get_debug(); gc.set_debug(gc.DEBUG_SAVEALL)   TGcOpen      *)
+(*     gc.collect(); the cycles in gc.garbage are analysed and                 *)
+(*     printed; del gc.garbage[:]; gc.set_debug(gc_opts)          TGcClose     *)
+(* (below that verbosity, and without the option, the flags are not touched)   *)
+Window == "A" \in Opts /\ v4
+
+TGcOpen ==
+  /\ pc = "tgc"
+  /\ IF Window
+     THEN /\ gcSaved' = g["gcDebug"]
+          /\ g' = [g EXCEPT !["gcDebug"] = {SaveAll}]
+          /\ pc' = "tgcwin" /\ UNCHANGED <<idx, t>>
+     ELSE /\ Leave /\ UNCHANGED <<g, gcSaved>>
+  /\ UNCHANGED <<saved, ending, exc, began, warnSaved>>
+
+(* Ending "gcWinKbint": KeyboardInterrupt arrives while the garbage of the last *)
+(* test is analysed / printed (Ctrl-C; a __repr__ that raises it).  The flags   *)
+(* are put back in a finally clause (fix fa5fa97; "AnalysisInterrupted" = the   *)
+(* code before it: the flags stay as the window set them).                     *)
+(* "AfterTestClearsDebug": the flags are cleared instead of put back.           *)
+TGcClose ==
+  /\ pc = "tgcwin"
+  /\ LET back == [g EXCEPT !["gcDebug"] = IF "AfterTestClearsDebug" \in Deviations
+                                          THEN {} ELSE gcSaved]
+     IN IF ending = "gcWinKbint" /\ Last
+        THEN /\ g' = IF "AnalysisInterrupted" \in Deviations THEN g ELSE back
+             /\ exc' = "kbint" /\ pc' = "eteardown" /\ idx' = NF /\ UNCHANGED t
+        ELSE /\ g' = back /\ Leave /\ UNCHANGED exc
+  /\ UNCHANGED <<saved, ending, began, warnSaved, gcSaved>>
 
 (* ---- finally: early_teardown, global_teardown (reversed) ---------------- *)
 SkipTeardown == "TeardownOutsideFinally" \in Deviations /\ exc # "none"
@@ -184,7 +261,7 @@ ETeardown ==
                     [] OTHER -> g
           /\ idx' = idx - 1 /\ UNCHANGED pc
      ELSE /\ pc' = "gteardown" /\ idx' = NF /\ UNCHANGED g
-  /\ UNCHANGED <<saved, t, ending, exc, began, warnSaved>>
+  /\ UNCHANGED <<saved, t, ending, exc, began, warnSaved, gcSaved>>
 
 Back(gg, xs) == [x \in Globals |-> IF x \in xs THEN saved[x] ELSE gg[x]]
 
@@ -192,14 +269,17 @@ GTeardown ==
   /\ pc = "gteardown"
   /\ IF idx >= 1
      THEN /\ g' = CASE Features[idx] = "Threshold" -> Back(g, {"gcThreshold"})
-                    [] Features[idx] = "Debug" -> Back(g, {"gcDebug"})
+                    [] Features[idx] = "Debug" ->
+                         IF "DebugOrAndMask" \in Deviations
+                         THEN [g EXCEPT !["gcDebug"] = @ \ GBits]
+                         ELSE Back(g, {"gcDebug"})
                     [] Features[idx] = "Traceback" ->
                          IF "TracebackKeepsPrint" \in Deviations
                          THEN Back(g, {"tbFormat"}) ELSE Back(g, {"tbFormat", "tbPrint"})
                     [] OTHER -> g
           /\ idx' = idx - 1 /\ UNCHANGED pc
      ELSE /\ pc' = "warnexit" /\ UNCHANGED <<g, idx>>
-  /\ UNCHANGED <<saved, t, ending, exc, began, warnSaved>>
+  /\ UNCHANGED <<saved, t, ending, exc, began, warnSaved, gcSaved>>
 
 WarnExit ==
   /\ pc = "warnexit"
@@ -208,11 +288,12 @@ WarnExit ==
           THEN g
           ELSE [g EXCEPT !["warnFilters"] = warnSaved[1], !["showwarning"] = warnSaved[2]]
   /\ pc' = IF exc = "none" THEN "returned" ELSE "raised"
-  /\ UNCHANGED <<saved, idx, t, ending, exc, began, warnSaved>>
+  /\ UNCHANGED <<saved, idx, t, ending, exc, began, warnSaved, gcSaved>>
 
 Next == /\ \/ WarnEnter \/ GSetup \/ LSetup \/ TStart \/ TBody \/ TStop
+           \/ TGcOpen \/ TGcClose
            \/ ETeardown \/ GTeardown \/ WarnExit
-        /\ UNCHANGED <<Opts, PreHooks>>
+        /\ UNCHANGED <<Opts, PreHooks, PreDebug, GBits, v4>>
 
 Spec == Init /\ [][Next]_vars /\ WF_vars(Next)
 
@@ -236,9 +317,16 @@ PredictedMid ==
      (IF "coverage" \in Opts THEN {"sysTrace", "thrTrace", "settraceFn"} ELSE {})
   \cup (IF "profile" \in Opts THEN {"sysProfile"} ELSE {})
   \cup (IF "gc" \in Opts THEN {"gcThreshold"} ELSE {})
-  \cup (IF "G" \in Opts THEN {"gcDebug"} ELSE {})
+  \cup (IF "G" \in Opts /\ GBits # PreDebug THEN {"gcDebug"} ELSE {})
   \cup {"tbFormat", "tbPrint"}
   \cup (IF "warnings" \in Opts THEN {"warnFilters"} ELSE {})
   \cup (IF "buffer" \in Opts THEN {"stdout", "stderr"} ELSE {})
 MidAsPredicted == pc = "tbody" => MidChanged \ {"warnFilters"} = PredictedMid \ {"warnFilters"}
+(* the debug flags bit by bit: while a test runs they are exactly what -G      *)
+(* names (the caller's without -G); inside stopTest's analysis window exactly   *)
+(* DEBUG_SAVEALL                                                               *)
+MidDebug == IF "G" \in Opts THEN GBits ELSE PreDebug
+WinDebug == {SaveAll}
+DebugAsPredicted == /\ pc = "tbody" => g["gcDebug"] = MidDebug
+                    /\ pc = "tgcwin" => g["gcDebug"] = WinDebug
 =============================================================================
